@@ -293,6 +293,29 @@ def is_clamp(F, body, e):
     return False
 
 
+def write_never_grows(F, b, n):
+    """(True, why) if the write to self.dt provably does not enlarge the step: a constant shrink, the clamp under `dt > dt_max`, or the clip
+    `dt = (end − time)/m` under `time + m·dt >= end` with the same m."""
+    cls, detail = classify_dt_write(F, b, n)
+    g = cfg.guards_of(b["body"], n)
+    if cls == "shrink":
+        return True, "shrink (%s)" % (detail,)
+    if cls == "clamp":
+        okg = any(l[2] is True and isinstance(cond_sym(F, b, l[1]), (sp.Gt, sp.Ge)) and
+                  sym.is_zero((cond_sym(F, b, l[1]).lhs - cond_sym(F, b, l[1]).rhs) - (sym.S("dt") - sym.S("dt_max"))) for l in cfg.conj_lits(g))
+        return okg, "clamp to dt_max" + ("" if okg else " outside `dt > dt_max`")
+    if cls == "clip":
+        m = detail
+        for l in cfg.conj_lits(g):
+            c = cond_sym(F, b, l[1])
+            if l[2] is True and isinstance(c, (sp.Ge, sp.Gt)) and c.rhs == sym.S("end"):
+                mm = sp.simplify((c.lhs - sym.S("time")) / sym.S("dt"))
+                if sp.simplify(mm - (m.subs({sp.Symbol("order", positive=True): sym.S("order")}) if hasattr(m, "subs") else m)) == 0 or str(mm).replace("self.", "") == str(m):
+                    return True, "clip (end − time)/%s under time + %s·dt >= end" % (m, m)
+        return False, "`dt = (end − time)/%s` is not under `time + %s·dt >= end`: it can exceed the previous dt" % (m, m)
+    return False, "%s: %s" % (cls, detail)
+
+
 def check_dt_writes(F, run, sname, b):
     dp = sname + "Solver::step"
     writes = [n for n in walk(b["body"], into_closures=False) if n.get("k") in ("Assign", "AssignOp") and place(n["l"]) == "self.dt"]
